@@ -1,11 +1,11 @@
 (* Entry points evaluated by the correspondence check (extracted to OCaml, or vm_compute'd). *)
 From Coq Require Import List NArith ZArith Bool.
 Import ListNotations.
-Require Import Parser SBase SPrim SDir SScalar SFetch Pipe SBuf Resolver Loader PipeL Grammar.
+Require Import Parser SBase SPrim SDir SScalar SFetch Pipe SBuf Resolver Loader PipeL Grammar Wrapper.
 
 (* tokens of the scanner model over the string back-end *)
 Definition scan_str (s : list N) : list token * scan_end :=
-  let F := (length s + 10)%nat in
+  let F := (2 * length s + 10)%nat in
   scan_all str_ops F (4 * F + 20) (init_sc {| si_chars := s; si_look := 0 |}) [].
 
 (* the parser model alone, run on a given token list (used on the implementation's real tokens) *)
@@ -21,3 +21,11 @@ Definition grammar_verdict (evs : list event) : bool * bool :=
   | Some GEnd => (true, true)
   | Some _ => (true, false)
   end.
+
+(* oracle for C17: the specification of a peek/next history over the plain iteration results, given as a
+   list (events are abstracted to their index; [inr] = the error that ends the iteration; an exhausted list
+   reads as an error).  [end_idx] = index of StreamEnd in the list, if any. *)
+Definition list_step (c : list (N + N)) : (N + N) * list (N + N) :=
+  match c with [] => (inr 999999%N, []) | r :: c' => (r, c') end.
+Definition hist_spec (h : list op) (results : list (N + N)) (end_idx : N) : list (option (N + N)) :=
+  spec_run (list (N + N)) N N (fun i => N.eqb i end_idx) list_step results h 0 false.
